@@ -1,9 +1,9 @@
 (* Extraction of the C16 executable model (ExtrOcamlBasic only; N/positive/nat stay inductive types).
    coqc runs with cwd = /verif/coq, so the output lands in coq/extracted/. *)
 From Coq Require Import NArith ZArith List Extraction ExtrOcamlBasic.
-From Kenlm Require Import C16.SortModel.
+From Kenlm Require Import C16.SortModel C16.ReadBackModel.
 Extraction Language OCaml.
 Extraction "extracted/c16_model.ml"
   sort_run sort_dispatch initial_runs sort_ctor blocks_of chain_block_size
   suffix_lt context_lt prefix_lt rec_lt combine_counts never_combine
-  off_reset off_append off_finished off_peek off_next off_drain off_log Z.of_N Z.to_N N.of_nat N.to_nat.
+  off_reset off_append off_finished off_peek off_next off_drain off_log Z.of_N Z.to_N N.of_nat N.to_nat ersatz_pread.
